@@ -4,7 +4,8 @@ From AV Require Import Base Machine GroupInv GroupInv2 GroupInv3 GroupInv4 Group
   GroupThms2.
 
 Definition Qh (h0 : nat * nat) (k : task) : Prop :=
-  k_group k = None \/ (k_hscope k = fst h0 /\ forall f, k_startfut k = Some f -> snd h0 <= f).
+  (k_group k = None /\ k_startfut k = None) \/
+  (k_hscope k = fst h0 /\ forall f, k_startfut k = Some f -> snd h0 <= f).
 
 Definition nstab (h0 : nat * nat) (s s' : st) : Prop := forall t, Qh h0 (tasks s t) -> Qh h0 (tasks s' t).
 
@@ -370,7 +371,7 @@ Qed.
 Lemma nstab_new_root h0 s : nstab h0 s (fst (new_root s)).
 Proof.
   unfold new_root. cbn [fst]. npeel nstab_set_running. npeel nstab_park.
-  apply (nstab_talloc h0 s root_rec false). left. reflexivity.
+  apply (nstab_talloc h0 s root_rec false). left. split; reflexivity.
 Qed.
 
 Lemma N5b_wake_step (h0 : nat * nat) s t : Inv s -> In (HStep t) (ready s) -> wake_ok (pop s (HStep t)) t None.
